@@ -30,6 +30,11 @@ CORRUPTIONS = {
     "trailing_text": lambda l: l + " x",
     "empty_line": lambda l: "",
     "leading_blank": lambda l: " " + l,
+    # characters outside ASCII that str.isalpha(), \\w or a careless character class accept
+    "nonascii_letter_section": lambda l: l[0] + "ś" + l[2:],
+    "fullwidth_letter_section": lambda l: "Ａ" + l[1:],
+    "fullwidth_underscore": lambda l: l[:3] + "＿" + l[4:],
+    "typographic_close_quote": lambda l: l[:-1] + "”",
 }
 
 
@@ -225,7 +230,7 @@ def run(res, tier, seed):
         "well-formed: baseline; 7 free-text keys x 7 value shapes; CRLF / no final newline; all rotations, adjacent transpositions,"
         " reversal; all permutations within each section (<=5 lines); 3..10 product files (also reversed); 1..3 shape indices -"
         " each through open_alos2 and compared with the summary reference model. Malformed: all 4095 non-empty subsets of a 12-line"
-        " summary x 10 corruption kinds + all kind pairs on 2-subsets through summary.open_summary; one kind per subset size and all"
+        " summary x 14 corruption kinds (4 of them with non-ASCII letters / underscore / quote) + all kind pairs on 2-subsets through summary.open_summary; one kind per subset size and all"
         " single lines through open_alos2. Every corrupted line is rejected by an independent line recogniser (asserted)."
     )
     res.assumptions = ["values are printable ASCII without line separators", "the numbering base of reported lines is not fixed by the property (0 or 1 accepted, but one base per report)"]
